@@ -91,8 +91,8 @@ func (l *leader) release() {
 	if trace {
 		println(l, "stopping followers")
 	}
-	for id, repl := range l.repls {
-		close(repl.stopCh)
+	l.stopReplications()
+	for id := range l.repls {
 		delete(l.repls, id)
 	}
 	if l.leader == l.nid {
@@ -117,6 +117,18 @@ func (l *leader) release() {
 	// wait for replicators to finish
 	l.wg.Wait()
 	l.replUpdateCh = nil
+}
+
+// stopReplications stops every replication and waits until their
+// goroutines, which read the log through views, have finished.
+func (l *leader) stopReplications() {
+	for _, repl := range l.repls {
+		if !repl.stopped {
+			repl.stopped = true
+			close(repl.stopCh)
+		}
+	}
+	l.wg.Wait()
 }
 
 func (l *leader) storeEntry(ne *newEntry) {
